@@ -303,7 +303,7 @@ def run(ctx):
     ctx.lean_check("Mashu.Props.C06", THEOREMS, extra_targets=["Mashu.Dispatch"])
     leaf_wire_law(ctx)
     run_templates(ctx)
-    # timezone offsets that are not whole minutes (recorded finding K19: the documented text format has no seconds)
+    # timezone offsets that are not whole minutes: the serializer writes the timezone's own name, seconds included (F65)
     import datetime
 
     import jsonschema
@@ -316,7 +316,7 @@ def run(ctx):
         doc = BasicEncoder(datetime.timezone).encode(datetime.timezone(td))
         errs = list(jsonschema.Draft202012Validator(build_json_schema(datetime.timezone).to_dict()).iter_errors(doc))
         if errs:
-            ctx.violation(case, {"document": doc, "error": errs[0].message[:200]}, "VALID(SCHEMA(S), encode(v))", "the serializer's output is rejected by the class's own schema", lambda f: f["id"] == "K19")
+            ctx.violation(case, {"document": doc, "error": errs[0].message[:200]}, "VALID(SCHEMA(S), encode(v))", "the serializer's output is rejected by the class's own schema", lambda f: False)
     n, depth = (1500, 3) if ctx.tier == "quick" else (25000, 4)
     done = 0
     while done < n and ctx.time_left() > 40:
